@@ -43,6 +43,15 @@ impl QueueCapacity {
 
 pub struct Counts { pub tag: u8 }
 
+#[derive(PartialEq, Eq, Structural, Clone, Copy, Debug)]
+pub enum UserError {
+    InactiveStreamId,
+    UnexpectedFrameType,
+    PayloadTooBig,
+    Other(u8),
+}
+use UserError::*;
+
 // ---- the stream store, abstractly.
 // `store::Ptr` is a (key, &mut Store) pair; Verus cannot return `&mut` into a container, so a Ptr handed out by
 // `Queue::pop` is modelled as the OWNED stream taken out of the store, and the store keeps, as ghost state, the
@@ -58,11 +67,17 @@ pub struct Store { pub others: Ghost<int> }
 ///   (so: closed and flushed  ==>  assigned == 0 — nothing leaks when the stream is forgotten).
 pub open spec fn stream_inv(s: Stream) -> bool {
     &&& wf_send(s)
-    &&& s.state.send_closed() ==> s.send_flow.a() <= s.buffered_send_data
-    &&& s.buffered_send_data <= 0x7fff_ffff
+    // I-cap for a closed send half: it keeps capacity only for data still buffered (so: closed and flushed ==> nothing
+    // assigned — nothing leaks when the stream is forgotten), and unless its data is about to be discarded it asks
+    // for no more than that data
+    &&& s.state.send_closed() ==> (s.buffered_send_data == 0 ==> s.send_flow.a() == 0)
+    &&& s.state.send_closed() ==> (s.state.scheduled_discard() || s.buffered_send_data == 0 || s.requested_send_capacity <= s.buffered_send_data)
+    &&& s.buffered_send_data <= 0xff_ffff_ffff     // memory-bounded; keeps the usize/u32 arithmetic of the bodies exact
     // buffered_send_data accounts for (at least) every queued DATA byte; the rest is the tail of a frame the
     // codec is writing
     &&& queued_bytes(s.pending_send@) <= s.buffered_send_data
+    // a stream waits for a concurrency slot OR for its PUSH_PROMISE, never both (Send::send_headers)
+    &&& !(s.is_pending_open && s.is_pending_push)
 }
 
 impl Store {
@@ -88,6 +103,38 @@ impl QueueSend {
                     // waits on pending_send only with frames queued, with a reset scheduled, or after its queue was
                     // cleared by a reset/error (then it is closed)
                     && ((s.pending_send@.len() == 0 && s.state.scheduled() is None) ==> s.state.closed()),
+                None => final(store).sum() == old(store).sum(),
+            },
+    { unimplemented!() }
+}
+
+impl QueueSend {
+    /// The same `pop`, called while no DATA frame is inside the codec (`in_flight_data_frame == Nothing`, the
+    /// precondition of pop_frame): then every buffered byte of every stream is in its queue (ASSUMED store-wide
+    /// consequence of I-cap: buffered_send_data == queued bytes + the in-flight tail).
+    #[verifier::external_body]
+    pub fn pop_idle(&mut self, store: &mut Store) -> (r: Option<Stream>)
+        requires old(store).sum() >= 0,
+        ensures
+            match r {
+                Some(s) => stream_inv(s) && !s.is_pending_send && !s.is_pending_open && !s.is_pending_push
+                    && 0 <= s.send_flow.a() <= old(store).sum() && final(store).sum() == old(store).sum() - s.send_flow.a()
+                    && ((s.pending_send@.len() == 0 && s.state.scheduled() is None) ==> s.state.closed())
+                    && queued_bytes(s.pending_send@) == s.buffered_send_data,
+                None => final(store).sum() == old(store).sum(),
+            },
+    { unimplemented!() }
+}
+
+impl QueueCapacity {
+    /// store::Queue<NextSendCapacity>::pop
+    #[verifier::external_body]
+    pub fn pop(&mut self, store: &mut Store) -> (r: Option<Stream>)
+        requires old(store).sum() >= 0,
+        ensures
+            match r {
+                Some(s) => stream_inv(s) && !s.is_pending_send_capacity
+                    && 0 <= s.send_flow.a() <= old(store).sum() && final(store).sum() == old(store).sum() - s.send_flow.a(),
                 None => final(store).sum() == old(store).sum(),
             },
     { unimplemented!() }
@@ -189,12 +236,14 @@ pub open spec fn min3(a: int, b: int, c: int) -> int {
 }
 
 impl Prioritize {
-    // assign_connection_capacity is NOT verified in this unit (it iterates over the other waiting streams):
-    // ASSUMED contract, restricted to what it does to the pool and to the one stream `store` resolves to:
+    // assign_connection_capacity<R: Resolve> has two instantiations.  R = Store is VERIFIED below (unbounded number of
+    // waiting streams).  R = store::Ptr (the resolver is the caller's own stream, which may itself be on
+    // pending_capacity and be popped and served by the loop) is the same body, but this aliasing cannot be expressed in
+    // the owned-stream model: for it the following contract is ASSUMED, restricted to the pool and that one stream:
     // the new capacity is either still in the pool, or assigned to this stream (within its request and its
     // window), or assigned to other streams (`to_others >= 0`).
     #[verifier::external_body]
-    pub fn assign_connection_capacity(&mut self, inc: WindowSize, store: &mut Stream, counts: &mut Counts) -> (to_others: Ghost<int>)
+    pub fn assign_connection_capacity_via_ptr(&mut self, inc: WindowSize, store: &mut Stream, counts: &mut Counts) -> (to_others: Ghost<int>)
         requires
             sz_ok(inc),
             wf_pool(*old(self)),
@@ -208,7 +257,8 @@ impl Prioritize {
             final(self).flow.a() + final(store).send_flow.a() + to_others@ == old(self).flow.a() + inc + old(store).send_flow.a(),
             final(self).flow.a() >= 0,
             final(store).send_flow.a() >= old(store).send_flow.a(),
-            final(store).send_flow.a() > old(store).send_flow.a() ==> final(store).send_flow.a() <= final(store).requested_send_capacity && final(store).send_flow.a() <= pos(final(store).send_flow.w()),
+            final(store).send_flow.a() > old(store).send_flow.a() ==> final(store).send_flow.a() <= final(store).requested_send_capacity && final(store).send_flow.a() <= pos(final(store).send_flow.w())
+                && (old(store).state.send_streaming() || old(store).buffered_send_data > 0),
             final(store).requested_send_capacity == old(store).requested_send_capacity,
             final(store).buffered_send_data == old(store).buffered_send_data,
             final(store).state == old(store).state,
@@ -263,6 +313,7 @@ impl Prioritize {
     //@end
 
     //@extract src/proto/streams/prioritize.rs Prioritize::reclaim_all_capacity
+    //@subst self.assign_connection_capacity(available, stream, counts);=>self.assign_connection_capacity_via_ptr(available, stream, counts);
     //@subst stream: &mut store::Ptr=>stream: &mut Stream
     //@subst let _res = stream.send_flow.claim_capacity(available);=>let _res = stream.send_flow.claim_capacity(available); assert(_res.is_ok());
     //@spec     requires
@@ -282,6 +333,7 @@ impl Prioritize {
     //@end
 
     //@extract src/proto/streams/prioritize.rs Prioritize::reclaim_reserved_capacity
+    //@subst self.assign_connection_capacity(reserved, stream, counts);=>self.assign_connection_capacity_via_ptr(reserved, stream, counts);
     //@subst stream: &mut store::Ptr=>stream: &mut Stream
     //@subst_re stream\s*\.send_flow\s*\.claim_capacity\(reserved\)\s*\.expect\("window size should be greater than reserved"\);=>let _r = stream.send_flow.claim_capacity(reserved); assert(_r.is_ok());
     //@spec     requires
@@ -296,16 +348,22 @@ impl Prioritize {
     //@end
 
     //@extract src/proto/streams/prioritize.rs Prioritize::reserve_capacity
+    //@subst self.assign_connection_capacity(diff, stream, counts);=>self.assign_connection_capacity_via_ptr(diff, stream, counts);
     //@subst stream: &mut store::Ptr=>stream: &mut Stream
     //@subst let _res = stream.send_flow.claim_capacity(diff);=>let _res = stream.send_flow.claim_capacity(diff); assert(_res.is_ok());
     //@subst cmp::min(capacity, WindowSize::MAX as usize)=>min_usize(capacity, WindowSize::MAX as usize)
     //@spec     requires
     //@spec         wf_send(*old(stream)) && wf_pool(*old(self)),
     //@spec         old(self).flow.a() + old(stream).send_flow.a() <= 0x7fff_ffff,
-    //@spec         old(stream).buffered_send_data <= 0x7fff_ffff,
+    //@spec         old(stream).buffered_send_data <= 0xff_ffff_ffff,
     //@spec         !(old(stream).is_pending_open && old(stream).is_pending_push),
     //@spec     ensures
     //@spec         final(stream).send_flow.w() == old(stream).send_flow.w() && final(self).flow.w() == old(self).flow.w(),
+    //@spec         final(self).in_flight_data_frame == old(self).in_flight_data_frame && final(self).max_buffer_size == old(self).max_buffer_size,
+    //@spec         final(stream).state == old(stream).state && final(stream).pending_send == old(stream).pending_send
+    //@spec             && final(stream).is_pending_open == old(stream).is_pending_open && final(stream).is_pending_push == old(stream).is_pending_push
+    //@spec             && final(stream).key == old(stream).key && final(stream).id == old(stream).id,
+    //@spec         wf_send(*final(stream)) && wf_pool(*final(self)),
     //@spec         // nothing is created: pool + this stream never grows (what is missing went to other streams)
     //@spec         final(self).flow.a() + final(stream).send_flow.a() <= old(self).flow.a() + old(stream).send_flow.a(),
     //@spec         final(self).flow.a() >= 0 && final(stream).send_flow.a() >= 0,
@@ -450,6 +508,7 @@ impl Prioritize {
 
     //@extract src/proto/streams/prioritize.rs Prioritize::pop_frame
     //@attr #[verifier::exec_allows_no_decreases_clause]
+    //@subst match self.pending_send.pop(store) {=>match self.pending_send.pop_idle(store) {
     //@subst pop_frame<B>(=>pop_frame(
     //@subst buffer: &mut Buffer<Frame<B>>=>buffer: &mut Buffer
     //@subst_re \)\s*->\s*Option<Frame<Prioritized<B>>>\s*where\s*B:\s*Buf,=>) -> (out: Option<Frame<Prioritized>>)
@@ -489,6 +548,79 @@ impl Prioritize {
     //@loop 0         self.flow.w() == old(self).flow.w(),
     //@loop 0         self.in_flight_data_frame == InFlightData::Nothing && old(self).in_flight_data_frame == InFlightData::Nothing,
     //@loop 0         16_384 <= max_len <= 0xff_ffff,
+    //@end
+
+    //@extract src/proto/streams/prioritize.rs Prioritize::send_data
+    //@subst send_data<B>(=>send_data(
+    //@subst frame: frame::Data<B>=>frame: frame::Data<Payload>
+    //@subst buffer: &mut Buffer<Frame<B>>=>buffer: &mut Buffer
+    //@subst stream: &mut store::Ptr=>stream: &mut Stream
+    //@subst_re \)\s*->\s*Result<\(\), UserError>\s*where\s*B:\s*Buf,=>) -> (r: Result<(), UserError>)
+    //@subst cmp::min(=>min_usize(
+    //@subst frame.into()=>Frame::Data(frame)
+    //@before if frame.is_end_stream() {=>proof { lemma_queued_push(stream.pending_send@, Frame::Data(frame)); }
+    //@spec     requires
+    //@spec         stream_inv(*old(stream)) && wf_pool(*old(self)),
+    //@spec         old(self).flow.a() + old(stream).send_flow.a() <= 0x7fff_ffff,
+    //@spec         !(old(stream).is_pending_open && old(stream).is_pending_push),
+    //@spec         old(stream).buffered_send_data + frame.data.rem <= 0xff_ffff_ffff,
+    //@spec     ensures
+    //@spec         // C04/C13: refused unless the send half is streaming; a refusal queues nothing and changes nothing
+    //@spec         frame.data.rem > 0x7fff_ffff ==> r == Err::<(), UserError>(UserError::PayloadTooBig),
+    //@spec         frame.data.rem <= 0x7fff_ffff && !old(stream).state.send_streaming() ==>
+    //@spec             r == Err::<(), UserError>(if old(stream).state.closed() { UserError::InactiveStreamId } else { UserError::UnexpectedFrameType }),
+    //@spec         frame.data.rem <= 0x7fff_ffff && old(stream).state.send_streaming() ==> r.is_ok(),
+    //@spec         r.is_err() ==> *final(stream) == *old(stream) && final(self).flow == old(self).flow,
+    //@spec         // C01: exactly this frame, unmodified, at the BACK of the stream's queue; END_STREAM closes the send half
+    //@spec         r.is_ok() ==> final(stream).pending_send@ == old(stream).pending_send@.push(Frame::Data(frame)),
+    //@spec         r.is_ok() ==> final(stream).buffered_send_data == old(stream).buffered_send_data + frame.data.rem,
+    //@spec         r.is_ok() ==> final(stream).state.inner == (if frame.eos { old(stream).state.after_send_end_stream() } else { old(stream).state.inner }),
+    //@spec         // C16/C02: queueing data never touches a window and creates no capacity; the stream stays well formed
+    //@spec         final(stream).send_flow.w() == old(stream).send_flow.w() && final(self).flow.w() == old(self).flow.w(),
+    //@spec         final(self).flow.a() + final(stream).send_flow.a() <= old(self).flow.a() + old(stream).send_flow.a(),
+    //@spec         r.is_ok() ==> wf_send(*final(stream)) && queued_bytes(final(stream).pending_send@) <= final(stream).buffered_send_data,
+    //@spec         // C06: with capacity in hand (or for an empty first frame) the stream is scheduled and the connection woken
+    //@spec         r.is_ok() && (final(stream).send_flow.a() > 0 || final(stream).buffered_send_data == 0) && !old(stream).is_pending_open && !old(stream).is_pending_push
+    //@spec             ==> final(stream).is_pending_send && *final(task) is None,
+    //@end
+
+    //@extract src/proto/streams/prioritize.rs Prioritize::assign_connection_capacity
+    //@attr #[verifier::exec_allows_no_decreases_clause]
+    //@subst assign_connection_capacity<R>(=>assign_connection_capacity(
+    //@subst store: &mut R=>store: &mut Store
+    //@subst_re \)\s*where\s*R:\s*Resolve,=>)
+    //@subst let _res = self.flow.assign_capacity(inc);=>let _res = self.flow.assign_capacity(inc); assert(_res.is_ok());
+    //@subst_re if !\(stream\.state\.is_send_streaming\(\) \|\| stream\.buffered_send_data > 0\) \{\s*continue;\s*\}=>if !(stream.state.is_send_streaming() || stream.buffered_send_data > 0) { store.put_back(stream); continue; }
+    //@subst_re counts\.transition\(stream, \|_, stream\| \{.*?\}\)=>{ let mut stream = stream; let is_pending_reset = stream.is_pending_reset_expiration(); self.try_assign_capacity(&mut stream); proof { assert(stream_inv(stream)); } counts.transition_after(stream, is_pending_reset, store); }
+    //@spec     requires
+    //@spec         sz_ok(inc),
+    //@spec         wf_pool(*old(self)) && old(store).sum() >= 0,
+    //@spec         old(self).flow.a() + inc + old(store).sum() <= 0x7fff_ffff,
+    //@spec     ensures
+    //@spec         // I-send-pool, for ANY number of waiting streams: the new credit is in the pool or assigned — not lost, not doubled
+    //@spec         final(self).flow.a() + final(store).sum() == old(self).flow.a() + inc + old(store).sum(),
+    //@spec         final(self).flow.a() >= 0 && final(store).sum() >= 0,
+    //@spec         final(self).flow.w() == old(self).flow.w(),
+    //@spec         final(self).in_flight_data_frame == old(self).in_flight_data_frame && final(self).max_buffer_size == old(self).max_buffer_size,
+    //@loop 0     invariant
+    //@loop 0         self.flow.a() + store.sum() == old(self).flow.a() + inc + old(store).sum(),
+    //@loop 0         self.flow.a() >= 0 && store.sum() >= 0 && self.flow.a() <= 0x7fff_ffff,
+    //@loop 0         self.flow.w() == old(self).flow.w(),
+    //@loop 0         self.in_flight_data_frame == old(self).in_flight_data_frame && self.max_buffer_size == old(self).max_buffer_size,
+    //@loop 0         old(self).flow.a() + inc + old(store).sum() <= 0x7fff_ffff,
+    //@end
+
+    //@extract src/proto/streams/prioritize.rs Prioritize::recv_connection_window_update
+    //@ret r
+    //@spec     requires
+    //@spec         sz_ok(inc) && inc >= 1,
+    //@spec         old(self).pool_inv(*old(store), 0),
+    //@spec     ensures
+    //@spec         // RFC 9113 6.9.1: the window may not exceed 2^31-1: FLOW_CONTROL_ERROR and nothing changes
+    //@spec         old(self).flow.w() + inc > 0x7fff_ffff ==> r == Err::<(), Reason>(Reason::FLOW_CONTROL_ERROR) && final(self).flow == old(self).flow && final(store).sum() == old(store).sum(),
+    //@spec         old(self).flow.w() + inc <= 0x7fff_ffff ==> r.is_ok() && final(self).flow.w() == old(self).flow.w() + inc
+    //@spec             && final(self).flow.a() + final(store).sum() == old(self).flow.a() + inc + old(store).sum()
+    //@spec             && final(self).pool_inv(*final(store), 0),
     //@end
 }
 
